@@ -31,11 +31,16 @@ def F(x):
     return Fraction(str(x))
 
 
-def side(lhs, rhs, band=BAND):
-    """three-valued lhs >= rhs for non-negative rhs."""
-    if lhs >= rhs * (1 + band):
+# amounts are carried with 35 significant digits by the code under test: a remainder (supplied - withdrawn) is only
+# known to about 1e-34 of the supplied amount, whatever the size of the debt it is compared with
+AMOUNT_RESOLUTION = Fraction(1, 10**33)
+
+
+def side(lhs, rhs, band=BAND, slack=0):
+    """three-valued lhs >= rhs for non-negative rhs; `slack` = absolute uncertainty of lhs."""
+    if lhs - slack >= rhs * (1 + band):
         return ACCEPT
-    if lhs < rhs * (1 - band):
+    if lhs + slack < rhs * (1 - band):
         return REJECT
     return EITHER
 
@@ -147,7 +152,9 @@ class Portfolio:
                 soft = "supplied-band"
         if not coll or not self.debts:
             return (EITHER, soft) if soft else (ACCEPT, "no-hf-constraint")
-        s = side(self.lt_sum(minus=(token, min(amount, have))), self.total_debt())
+        # the kept collateral is a difference of two 35-digit amounts: it cannot be resolved below ~1e-34 of `have`
+        slack = AMOUNT_RESOLUTION * have * self.prices[token] * F(self.risk[token]["lt"])
+        s = side(self.lt_sum(minus=(token, min(amount, have))), self.total_debt(), slack=slack)
         if s == REJECT:
             return REJECT, "hf-after"
         if s == EITHER:
